@@ -1,7 +1,154 @@
-(* API commands for the Render package (stub until the package lands). *)
-From Coq Require Import ZArith List.
-From Labella Require Import Extract.Codec.
+(* API commands 500..599: rendering (C07, C08, C09).
+     500 scene -> svg_doc      501 scene -> tikz_doc
+     502 scene -> nodeHeight and, per label, w h x y dx dy origin (Renderer.layout, nodePos)
+   scene :=
+     dir(0 up,1 down,2 left,3 right) iw ih ml mr mt mb gap padL padR padT padB dotr (rationals)
+     showTicks showBorder tickCross (bools)
+     5 colour options in the order dot, labelBg, labelText, link, border:
+        0 code | 1 list-of-codes | 2 (function: per-label values below)
+     ticks: list of (pos, text)
+     labels: list of (ideal, datum width, opt text, chain, list of 5 function-colour codes)
+   Sizes are computed from the datum width by the model of get_nodes. *)
+From Coq Require Import ZArith NArith QArith List Bool.
+From Labella Require Import Extract.Codec Text.Utils Render.Geometry Render.Scene.
 Import ListNotations.
 Open Scope Z_scope.
 
-Definition api_render (cmd : Z) (a : list Z) : list Z := bad_input.
+(* ---------- decoding ---------------------------------------------------------- *)
+Definition dbind {A B} (d : dec A) (f : A -> dec B) : dec B := fun l =>
+  match d l with Some (a, r) => f a r | None => None end.
+Definition dret {A} (a : A) : dec A := fun l => Some (a, l).
+Notation "x <- d ;; e" := (dbind d (fun x => e)) (at level 61, d at next level, right associativity).
+
+Definition d_text : dec (list N) := d_list d_n.
+
+Definition d_dir : dec direction :=
+  z <- d_z ;;
+  match z with
+  | 0 => dret Up | 1 => dret Down | 2 => dret Left | 3 => dret Right
+  | _ => fun _ => None
+  end.
+
+Definition d_colour : dec colour_opt :=
+  z <- d_z ;;
+  match z with
+  | 0 => c <- d_text ;; dret (CConst c)
+  | 1 => cs <- d_list d_text ;; dret (CList cs)
+  | 2 => dret CFun
+  | _ => fun _ => None
+  end.
+
+Definition d_opts : dec opts :=
+  dir <- d_dir ;; iw <- d_q ;; ih <- d_q ;;
+  ml <- d_q ;; mr <- d_q ;; mt <- d_q ;; mb <- d_q ;; gap <- d_q ;;
+  pl <- d_q ;; pr <- d_q ;; pt <- d_q ;; pb <- d_q ;; dotr <- d_q ;;
+  tk <- d_bool ;; bd <- d_bool ;; cr <- d_bool ;;
+  c1 <- d_colour ;; c2 <- d_colour ;; c3 <- d_colour ;; c4 <- d_colour ;; c5 <- d_colour ;;
+  dret (mkOpts dir iw ih ml mr mt mb gap (mkPad pl pr pt pb) dotr tk bd cr c1 c2 c3 c4 c5).
+
+(* a label as the harness observes it; w and h by the get_nodes model *)
+Definition d_label (d : direction) (p : padding) : dec label :=
+  ideal <- d_q ;; width <- d_q ;; text <- d_opt d_text ;; chain <- d_list d_z ;;
+  fc <- d_list d_text ;;
+  let '(w, h) := node_size d p width text in
+  dret (mkLabel ideal w h chain text fc).
+
+Definition d_scene : dec scene :=
+  o <- d_opts ;;
+  ticks <- d_list (d_pair d_q d_text) ;;
+  labels <- d_list (d_label (o_dir o) (o_pad o)) ;;
+  dret (mkScene o ticks labels).
+
+(* ---------- encoding ---------------------------------------------------------- *)
+Definition e_z (z : Z) : list Z := [z].
+Definition e_text (t : list N) : list Z := e_list e_n t.
+(* Fi carries the truncated integer, F6/F8/F16 the printed decimal as an
+   integer number of units of the last digit; all carry the unrounded value
+   too (for the harness's ambiguity band / tolerance) *)
+Definition scaled (k : positive) (x : Q) : Z := dec_round (x * inject_Z (Zpos k)).
+Definition e_num (n : num) : list Z :=
+  match n with
+  | Fi x => 0 :: trunc x :: e_q x
+  | F6 x => 1 :: scaled pow6 x :: e_q x
+  | F8 x => 2 :: scaled pow8 x :: e_q x
+  | F16 x => 3 :: scaled pow16 x :: e_q x
+  | Fs x => 4 :: e_q x
+  | Fl z => [5; z]
+  end.
+Definition e_np (p : npoint) : list Z := e_num (fst p) ++ e_num (snd p).
+Definition e_nstep (s : nstep) : list Z :=
+  match s with
+  | NM p => 0 :: e_list e_np [p]
+  | NC c1 c2 p => 1 :: e_list e_np [c1; c2; p]
+  | NL p => 2 :: e_list e_np [p]
+  end.
+Definition e_role (r : role) : list Z := [Z.of_nat (role_idx r)].
+Definition e_cname (c : cname) : list Z := e_role (fst c) ++ e_text (snd c).
+
+Definition e_svg_anchor (a : svg_anchor) : list Z :=
+  match a with AMiddle => [0] | AEnd => [1] | AStart => [2] end.
+Definition e_svg_tick (t : svg_tick) : list Z :=
+  e_np (stk_tr t) ++ [stk_x2 t; stk_y2 t] ++ e_svg_anchor (stk_anchor t)
+  ++ [stk_tx t; stk_ty t; Z.of_N (stk_dy t)] ++ e_text (stk_text t).
+Definition e_svg_link (k : svg_link) : list Z :=
+  e_opt e_text (slk_stroke k) ++ e_list e_nstep (slk_d k).
+Definition e_svg_text (t : svg_text) : list Z :=
+  e_num (stx_x t) ++ e_num (stx_y t) ++ e_opt e_text (stx_fill t) ++ e_text (stx_body t).
+Definition e_svg_label (b : svg_label) : list Z :=
+  e_np (slb_tr b) ++ e_num (slb_w b) ++ e_num (slb_h b) ++ e_opt e_text (slb_fill b)
+  ++ e_opt (e_opt e_text) (slb_stroke b) ++ e_opt e_svg_text (slb_text b).
+Definition e_svg_dot (c : svg_dot) : list Z :=
+  e_num (sdt_r c) ++ e_opt e_text (sdt_fill c) ++ e_opt e_num (sdt_cx c) ++ e_opt e_num (sdt_cy c).
+Definition e_svg (d : svg_doc) : list Z :=
+  e_num (sv_width d) ++ e_num (sv_height d) ++ e_np (sv_margin d) ++ e_np (sv_main d)
+  ++ e_opt e_num (sv_axis_x2 d) ++ e_opt e_num (sv_axis_y2 d)
+  ++ e_opt (e_list e_svg_tick) (sv_ticks d)
+  ++ e_list e_svg_link (sv_links d) ++ e_list e_svg_label (sv_labels d)
+  ++ e_list e_svg_dot (sv_dots d).
+
+Definition e_tikz_anchor (a : tikz_anchor) : list Z :=
+  match a with ANorth => [0] | ASouth => [1] | AWest => [2] | AEast => [3] end.
+Definition e_tikz_tick (t : tikz_tick) : list Z :=
+  e_np (ttk_shift t) ++ [fst (ttk_from t); snd (ttk_from t); fst (ttk_to t); snd (ttk_to t)]
+  ++ e_tikz_anchor (ttk_anchor t) ++ e_text (ttk_text t).
+Definition e_tikz_seg (g : tikz_seg) : list Z :=
+  match g with
+  | TCurve c p0 c1 c2 p => 0 :: e_cname c ++ e_list e_np [p0; c1; c2; p]
+  | TLine c p0 p => 1 :: e_cname c ++ e_list e_np [p0; p]
+  end.
+Definition e_tikz_label (b : tikz_label) : list Z :=
+  e_np (tlb_shift b) ++ e_opt e_cname (tlb_border b) ++ e_cname (tlb_bg b)
+  ++ e_num (tlb_w b) ++ e_num (tlb_h b) ++ e_cname (tlb_textcol b) ++ e_opt e_text (tlb_text b).
+Definition e_tikz_dot (c : tikz_dot) : list Z :=
+  e_num (tdt_size c) ++ e_cname (tdt_fill c) ++ e_np (tdt_at c).
+Definition e_tikz (d : tikz_doc) : list Z :=
+  let '(b1, b2, b3, b4) := tk_border d in
+  e_num b1 ++ e_num b2 ++ e_num b3 ++ e_num b4
+  ++ e_list (fun c => e_cname (fst c) ++ e_text (snd c)) (tk_colors d)
+  ++ e_list (fun t => e_text (fst t) ++ e_text (snd t)) (tk_texts d)
+  ++ e_np (tk_margin d) ++ e_np (tk_main d) ++ e_np (tk_axis d)
+  ++ e_opt (e_list e_tikz_tick) (tk_ticks d)
+  ++ e_list (e_list e_tikz_seg) (tk_links d)
+  ++ e_list e_tikz_label (tk_labels d)
+  ++ e_list e_tikz_dot (tk_dots d).
+
+Definition e_layout (s : scene) (l : label) : list Z :=
+  let o := sc_opts s in
+  let p := label_layout (o_dir o) (o_gap o) (sc_H s) l in
+  let og := sc_origin s l in
+  e_q (l_w l) ++ e_q (l_h l) ++ e_q (px p) ++ e_q (py p) ++ e_q (pdx p) ++ e_q (pdy p)
+  ++ e_q (fst og) ++ e_q (snd og) ++ [l_layer l].
+
+Definition with_scene (f : scene -> list Z) (a : list Z) : list Z :=
+  match d_scene a with
+  | Some (s, []) => f s
+  | _ => bad_input
+  end.
+
+Definition api_render (cmd : Z) (a : list Z) : list Z :=
+  match cmd with
+  | 500 => with_scene (fun s => 1 :: e_svg (svg_doc_of s)) a
+  | 501 => with_scene (fun s => 1 :: e_tikz (tikz_doc_of s)) a
+  | 502 => with_scene (fun s => 1 :: e_q (sc_H s) ++ e_list (e_layout s) (sc_labels s)) a
+  | _ => bad_input
+  end.
